@@ -554,6 +554,407 @@ theorem spec_erase (s : String) : ∀ (ops : List Op) (α1 α2 : Spec.State), Eq
 theorem eqExcept_init (s : String) (cat : Catalog) : EqExcept s (Spec.State.init cat) (Spec.State.init cat) :=
   ⟨rfl, rfl, rfl, rfl, fun _ _ => rfl, rfl⟩
 
+/-! ### erasing ONE transaction that does not commit: the states themselves coincide once the session is gone -/
+
+theorem erase_erase_self (s : String) : ∀ (l : List (String × β)), erase s (erase s l) = erase s l
+  | [] => rfl
+  | (k, v) :: l => by
+    by_cases h : k = s
+    · simp [erase, h, erase_erase_self s l]
+    · simp [erase, h, erase_erase_self s l]
+
+theorem erase_comm (a b : String) : ∀ (l : List (String × β)), erase a (erase b l) = erase b (erase a l)
+  | [] => rfl
+  | (k, v) :: l => by
+    have ih := erase_comm a b l
+    by_cases h1 : k = a
+    · subst h1
+      by_cases h2 : k = b
+      · subst h2; rfl
+      · simp [erase, h2, ih]
+    · by_cases h2 : k = b
+      · subst h2; simp [erase, h1, ih]
+      · simp [erase, h1, h2, ih]
+
+theorem erase_absent (s : String) : ∀ (l : List (String × β)), lookup s l = none → erase s l = l
+  | [], _ => rfl
+  | (k, v) :: l, h => by
+    by_cases h1 : k = s
+    · simp [lookup, h1] at h
+    · simp only [lookup, beq_iff_eq, h1, if_false] at h
+      simp [erase, h1, erase_absent s l h]
+
+theorem erase_cons_ne (s n : String) (v : β) (l : List (String × β)) (h : n ≠ s) :
+    erase s ((n, v) :: l) = (n, v) :: erase s l := by simp [erase, h]
+
+theorem erase_cons_self (s : String) (v : β) (l : List (String × β)) : erase s ((s, v) :: l) = erase s l := by
+  simp [erase]
+
+/-- `α` without session `s` -/
+def dropSess (s : String) (α : Spec.State) : Spec.State := { α with sessions := erase s α.sessions }
+
+theorem dropSess_absent (s : String) (α : Spec.State) (h : lookup s α.sessions = none) : dropSess s α = α := by
+  unfold dropSess; rw [erase_absent s _ h]
+
+theorem commitC_dropSess (s : String) (α : Spec.State) (a : Spec.ATxn) :
+    (dropSess s α).commitC a = (dropSess s (α.commitC a).1, (α.commitC a).2) := by
+  unfold Spec.State.commitC Spec.State.commitTxn dropSess
+  by_cases hc : Spec.conflict α.log a = true
+  · simp [hc]
+  · simp only [hc, Bool.false_eq_true, if_false, if_true]
+    split <;> rfl
+
+/-- an operation of another session (or an autocommit operation) does not care whether session `s` exists -/
+theorem step_dropSess_other (s : String) (α : Spec.State) (op : Op) (hof : op.ofSess s = false) :
+    Spec.step (dropSess s α) op = (dropSess s (Spec.step α op).1, (Spec.step α op).2) := by
+  unfold Spec.step
+  cases op with
+  | begin n =>
+    have hn : n ≠ s := by simpa [Op.ofSess] using hof
+    simp only [Spec.stepCore, dropSess, erase_cons_ne s n _ _ hn, erase_comm n s]
+    rfl
+  | commit n =>
+    have hn : n ≠ s := by simpa [Op.ofSess] using hof
+    simp only [Spec.stepCore]
+    have hl : lookup n (dropSess s α).sessions = lookup n α.sessions := lookup_erase_ne s n _ hn
+    rw [hl]
+    cases lookup n α.sessions with
+    | none => rfl
+    | some a =>
+      simp only [commitC_dropSess]
+      simp only [dropSess, erase_comm n s]
+  | rollback n =>
+    have hn : n ≠ s := by simpa [Op.ofSess] using hof
+    simp only [Spec.stepCore]
+    have hl : lookup n (dropSess s α).sessions = lookup n α.sessions := lookup_erase_ne s n _ hn
+    rw [hl]
+    cases lookup n α.sessions with
+    | none => rfl
+    | some a => simp only [dropSess, erase_comm n s]
+  | drop n =>
+    have hn : n ≠ s := by simpa [Op.ofSess] using hof
+    simp only [Spec.stepCore]
+    have hl : lookup n (dropSess s α).sessions = lookup n α.sessions := lookup_erase_ne s n _ hn
+    rw [hl]
+    cases lookup n α.sessions with
+    | none => rfl
+    | some a => simp only [dropSess, erase_comm n s]
+  | exec n st =>
+    have hn : n ≠ s := by simpa [Op.ofSess] using hof
+    simp only [Spec.stepCore]
+    have hl : lookup n (dropSess s α).sessions = lookup n α.sessions := lookup_erase_ne s n _ hn
+    rw [hl]
+    cases lookup n α.sessions with
+    | none => rfl
+    | some a => simp only [dropSess, erase_cons_ne s n _ _ hn, erase_comm n s]
+  | auto st =>
+    simp only [Spec.stepCore]
+    have hb : (dropSess s α).beginTxn = α.beginTxn := rfl
+    have hcat : (dropSess s α).cat = α.cat := rfl
+    have hclk : (dropSess s α).clock = α.clock := rfl
+    rw [hb, hcat, hclk]
+    split
+    · rfl
+    · simp only [commitC_dropSess]; rfl
+  | batch sts =>
+    simp only [Spec.stepCore]
+    have hb : (dropSess s α).beginTxn = α.beginTxn := rfl
+    have hcat : (dropSess s α).cat = α.cat := rfl
+    have hclk : (dropSess s α).clock = α.clock := rfl
+    rw [hb, hcat, hclk]
+    split
+    · rfl
+    · simp only [commitC_dropSess]; rfl
+  | tick => rfl
+  | nop => rfl
+
+/-- an operation of session `s` other than a commit changes nothing but session `s` -/
+theorem step_dropSess_own (s : String) (α : Spec.State) (op : Op) (hof : op.ofSess s = true) (hnc : op ≠ .commit s) :
+    (Spec.step (dropSess s α) .nop).1 = dropSess s (Spec.step α op).1 := by
+  unfold Spec.step
+  cases op with
+  | begin s' =>
+    have e : s' = s := by simpa [Op.ofSess] using hof
+    subst e
+    simp only [Spec.stepCore, dropSess, erase_cons_self, erase_erase_self]
+  | commit s' =>
+    have e : s' = s := by simpa [Op.ofSess] using hof
+    subst e; exact (hnc rfl).elim
+  | rollback s' =>
+    have e : s' = s := by simpa [Op.ofSess] using hof
+    subst e
+    simp only [Spec.stepCore]
+    cases lookup s' α.sessions with
+    | none => rfl
+    | some a => simp only [dropSess, erase_erase_self]
+  | drop s' =>
+    have e : s' = s := by simpa [Op.ofSess] using hof
+    subst e
+    simp only [Spec.stepCore]
+    cases lookup s' α.sessions with
+    | none => rfl
+    | some a => simp only [dropSess, erase_erase_self]
+  | exec s' st =>
+    have e : s' = s := by simpa [Op.ofSess] using hof
+    subst e
+    simp only [Spec.stepCore]
+    cases lookup s' α.sessions with
+    | none => rfl
+    | some a => simp only [dropSess, erase_cons_self, erase_erase_self]
+  | auto st => simp [Op.ofSess] at hof
+  | batch sts => simp [Op.ofSess] at hof
+  | tick => simp [Op.ofSess] at hof
+  | nop => simp [Op.ofSess] at hof
+
+/-- the erased history run without session `s` ends in the state of the full history without session `s`, and answers
+    the same outside session `s` -/
+theorem spec_erase_from (s : String) : ∀ (ops : List Op) (α : Spec.State), (∀ op ∈ ops, op ≠ .commit s) →
+    Spec.final (dropSess s α) (eraseSess s ops) = dropSess s (Spec.final α ops) ∧
+    Spec.outs (dropSess s α) (eraseSess s ops) = maskOuts s ops (Spec.outs α ops)
+  | [], _, _ => ⟨rfl, rfl⟩
+  | op :: ops, α, hnc => by
+    have hnc' : ∀ o ∈ ops, o ≠ .commit s := fun o ho => hnc o (List.mem_cons_of_mem _ ho)
+    simp only [eraseSess, List.map_cons, Spec.outs, Spec.final, maskOuts]
+    cases hof : op.ofSess s with
+    | true =>
+      simp only [if_true]
+      have h1 := step_dropSess_own s α op hof (hnc op (List.mem_cons_self ..))
+      obtain ⟨ih1, ih2⟩ := spec_erase_from s ops (Spec.step α op).1 hnc'
+      simp only [eraseSess] at ih1 ih2
+      rw [h1, ih1, ih2]
+      exact ⟨rfl, rfl⟩
+    | false =>
+      simp only [Bool.false_eq_true, if_false]
+      have h1 := step_dropSess_other s α op hof
+      obtain ⟨ih1, ih2⟩ := spec_erase_from s ops (Spec.step α op).1 hnc'
+      simp only [eraseSess] at ih1 ih2
+      rw [h1]
+      simp only
+      rw [ih1, ih2]
+      exact ⟨rfl, rfl⟩
+
+/-! ### … also when the transaction ends in a commit that is REFUSED -/
+
+def Op.isCommitOf (s : String) : Op → Bool
+  | .commit s' => s' == s
+  | _ => false
+
+/-- no commit of session `s` among `ops` was answered with `ok` (`outs` = the outputs of `ops`) -/
+def noCommitOk (s : String) : List Op → List Out → Bool
+  | op :: ops, o :: os => !(op.isCommitOf s && o == .ok) && noCommitOk s ops os
+  | _, _ => true
+
+theorem spec_commitC_refused_state (α : Spec.State) (a : Spec.ATxn) (e : Err)
+    (h : (α.commitC a).2 = some e) : (α.commitC a).1 = α := by
+  unfold Spec.State.commitC at h ⊢
+  split
+  · rename_i h1
+    simp only [h1, if_true] at h
+    split
+    · rfl
+    · rename_i h2; simp [h2] at h
+  · rfl
+
+/-- an operation of session `s` that is not a successful commit changes nothing but session `s` -/
+theorem step_dropSess_own' (s : String) (α : Spec.State) (op : Op) (hof : op.ofSess s = true)
+    (hnc : (op.isCommitOf s && (Spec.step α op).2 == .ok) = false) :
+    (Spec.step (dropSess s α) .nop).1 = dropSess s (Spec.step α op).1 := by
+  cases op with
+  | commit s' =>
+    have e : s' = s := by simpa [Op.ofSess] using hof
+    subst e
+    unfold Spec.step at hnc ⊢
+    simp only [Spec.stepCore] at hnc ⊢
+    cases hl : lookup s' α.sessions with
+    | none => rfl
+    | some a =>
+      rw [hl] at hnc
+      simp only at hnc ⊢
+      cases hr : (α.commitC a).2 with
+      | none =>
+        exfalso
+        rw [hr] at hnc
+        simp [Op.isCommitOf, outOfCommit] at hnc
+      | some e =>
+        have hst := spec_commitC_refused_state α a e hr
+        simp only [hst, dropSess, erase_erase_self]
+  | begin s' => exact step_dropSess_own s α _ hof (by simp)
+  | rollback s' => exact step_dropSess_own s α _ hof (by simp)
+  | drop s' => exact step_dropSess_own s α _ hof (by simp)
+  | exec s' st => exact step_dropSess_own s α _ hof (by simp)
+  | auto st => simp [Op.ofSess] at hof
+  | batch sts => simp [Op.ofSess] at hof
+  | tick => simp [Op.ofSess] at hof
+  | nop => simp [Op.ofSess] at hof
+
+theorem spec_erase_from' (s : String) : ∀ (ops : List Op) (α : Spec.State),
+    noCommitOk s ops (Spec.outs α ops) = true →
+    Spec.final (dropSess s α) (eraseSess s ops) = dropSess s (Spec.final α ops) ∧
+    Spec.outs (dropSess s α) (eraseSess s ops) = maskOuts s ops (Spec.outs α ops)
+  | [], _, _ => ⟨rfl, rfl⟩
+  | op :: ops, α, hnc => by
+    simp only [Spec.outs, noCommitOk, Bool.and_eq_true, Bool.not_eq_true'] at hnc
+    obtain ⟨hnc1, hnc'⟩ := hnc
+    simp only [eraseSess, List.map_cons, Spec.outs, Spec.final, maskOuts]
+    cases hof : op.ofSess s with
+    | true =>
+      simp only [if_true]
+      have h1 := step_dropSess_own' s α op hof hnc1
+      obtain ⟨ih1, ih2⟩ := spec_erase_from' s ops (Spec.step α op).1 hnc'
+      simp only [eraseSess] at ih1 ih2
+      rw [h1, ih1, ih2]
+      exact ⟨rfl, rfl⟩
+    | false =>
+      simp only [Bool.false_eq_true, if_false]
+      have h1 := step_dropSess_other s α op hof
+      obtain ⟨ih1, ih2⟩ := spec_erase_from' s ops (Spec.step α op).1 hnc'
+      simp only [eraseSess] at ih1 ih2
+      rw [h1]
+      simp only
+      rw [ih1, ih2]
+      exact ⟨rfl, rfl⟩
+
+/-! ### states that differ in the ORDER of their session list answer alike -/
+
+/-- the two abstract states agree on everything; their session lists agree as maps -/
+structure EqSess (α1 α2 : Spec.State) : Prop where
+  cat : α1.cat = α2.cat
+  committed : α1.committed = α2.committed
+  log : α1.log = α2.log
+  clock : α1.clock = α2.clock
+  sess : ∀ n, lookup n α1.sessions = lookup n α2.sessions
+
+theorem EqSess.refl (α : Spec.State) : EqSess α α := ⟨rfl, rfl, rfl, rfl, fun _ => rfl⟩
+
+theorem step_eqSess (α1 α2 : Spec.State) (h : EqSess α1 α2) (op : Op) :
+    (Spec.step α1 op).2 = (Spec.step α2 op).2 ∧ EqSess (Spec.step α1 op).1 (Spec.step α2 op).1 := by
+  obtain ⟨c1, m1, l1, s1, k1⟩ := α1
+  obtain ⟨c2, m2, l2, s2, k2⟩ := α2
+  obtain ⟨e1, e2, e3, e4, hs⟩ := h
+  simp only at e1 e2 e3 e4 hs
+  subst e1 e2 e3 e4
+  have hcons : ∀ (n : String) (x : Spec.ATxn) (m : String),
+      lookup m ((n, x) :: erase n s1) = lookup m ((n, x) :: erase n s2) := by
+    intro n x m; rw [lookup_cons_if, lookup_cons_if, lookup_erase_if, lookup_erase_if, hs m]
+  have hers : ∀ (n m : String), lookup m (erase n s1) = lookup m (erase n s2) := by
+    intro n m; rw [lookup_erase_if, lookup_erase_if, hs m]
+  unfold Spec.step
+  cases op with
+  | begin n =>
+    simp only [Spec.stepCore]
+    exact ⟨trivial, ⟨rfl, rfl, rfl, rfl, hcons n _⟩⟩
+  | commit n =>
+    simp only [Spec.stepCore]
+    rw [hs n]
+    cases lookup n s2 with
+    | none => exact ⟨rfl, ⟨rfl, rfl, rfl, rfl, hs⟩⟩
+    | some a =>
+      dsimp only
+      obtain ⟨q1, q2, q3, q4, q5, q6, q7⟩ :=
+        spec_commit_congr ⟨c1, m1, l1, s1, k1⟩ ⟨c1, m1, l1, s2, k1⟩ a rfl rfl rfl
+      refine ⟨by rw [q1], ⟨?_, q2, q3, ?_, ?_⟩⟩
+      · show (Spec.State.commitC _ a).1.cat = (Spec.State.commitC _ a).1.cat
+        rw [q4, q5]
+      · show (Spec.State.commitC _ a).1.clock + 1 = (Spec.State.commitC _ a).1.clock + 1
+        rw [q6, q7]
+      · intro m
+        show lookup m (erase n (Spec.State.commitC _ a).1.sessions) = lookup m (erase n (Spec.State.commitC _ a).1.sessions)
+        rw [spec_commitC_sessions, spec_commitC_sessions]; exact hers n m
+  | rollback n =>
+    simp only [Spec.stepCore]
+    rw [hs n]
+    cases lookup n s2 with
+    | none => exact ⟨rfl, ⟨rfl, rfl, rfl, rfl, hs⟩⟩
+    | some a => exact ⟨rfl, ⟨rfl, rfl, rfl, rfl, hers n⟩⟩
+  | drop n =>
+    simp only [Spec.stepCore]
+    rw [hs n]
+    cases lookup n s2 with
+    | none => exact ⟨rfl, ⟨rfl, rfl, rfl, rfl, hs⟩⟩
+    | some a => exact ⟨rfl, ⟨rfl, rfl, rfl, rfl, hers n⟩⟩
+  | exec n st =>
+    simp only [Spec.stepCore]
+    rw [hs n]
+    cases lookup n s2 with
+    | none => exact ⟨rfl, ⟨rfl, rfl, rfl, rfl, hs⟩⟩
+    | some a => exact ⟨rfl, ⟨rfl, rfl, rfl, rfl, hcons n _⟩⟩
+  | auto st =>
+    simp only [Spec.stepCore]
+    have hb : Spec.State.beginTxn ⟨c1, m1, l1, s1, k1⟩ = Spec.State.beginTxn ⟨c1, m1, l1, s2, k1⟩ := rfl
+    rw [hb]
+    split
+    · exact ⟨rfl, ⟨rfl, rfl, rfl, rfl, hs⟩⟩
+    · dsimp only
+      obtain ⟨q1, q2, q3, q4, q5, q6, q7⟩ :=
+        spec_commit_congr ⟨c1, m1, l1, s1, k1⟩ ⟨c1, m1, l1, s2, k1⟩
+          (Spec.stmt c1 k1 (Spec.State.beginTxn ⟨c1, m1, l1, s2, k1⟩) 0 st).1 rfl rfl rfl
+      refine ⟨by rw [q1], ⟨?_, q2, q3, ?_, ?_⟩⟩
+      · show (Spec.State.commitC _ _).1.cat = (Spec.State.commitC _ _).1.cat
+        rw [q4, q5]
+      · show (Spec.State.commitC _ _).1.clock + 1 = (Spec.State.commitC _ _).1.clock + 1
+        rw [q6, q7]
+      · intro m
+        show lookup m (Spec.State.commitC _ _).1.sessions = lookup m (Spec.State.commitC _ _).1.sessions
+        rw [spec_commitC_sessions, spec_commitC_sessions]; exact hs m
+  | batch sts =>
+    simp only [Spec.stepCore]
+    have hb : Spec.State.beginTxn ⟨c1, m1, l1, s1, k1⟩ = Spec.State.beginTxn ⟨c1, m1, l1, s2, k1⟩ := rfl
+    rw [hb]
+    split
+    · exact ⟨rfl, ⟨rfl, rfl, rfl, rfl, hs⟩⟩
+    · rename_i a' outs heq
+      dsimp only
+      obtain ⟨q1, q2, q3, q4, q5, q6, q7⟩ :=
+        spec_commit_congr ⟨c1, m1, l1, s1, k1⟩ ⟨c1, m1, l1, s2, k1⟩ a' rfl rfl rfl
+      refine ⟨by rw [q1], ⟨?_, q2, q3, ?_, ?_⟩⟩
+      · show (Spec.State.commitC _ _).1.cat = (Spec.State.commitC _ _).1.cat
+        rw [q4, q5]
+      · show (Spec.State.commitC _ _).1.clock + 1 = (Spec.State.commitC _ _).1.clock + 1
+        rw [q6, q7]
+      · intro m
+        show lookup m (Spec.State.commitC _ _).1.sessions = lookup m (Spec.State.commitC _ _).1.sessions
+        rw [spec_commitC_sessions, spec_commitC_sessions]; exact hs m
+  | tick => exact ⟨rfl, ⟨rfl, rfl, rfl, rfl, hs⟩⟩
+  | nop => exact ⟨rfl, ⟨rfl, rfl, rfl, rfl, hs⟩⟩
+
+theorem outs_eqSess : ∀ (ops : List Op) (α1 α2 : Spec.State), EqSess α1 α2 → Spec.outs α1 ops = Spec.outs α2 ops
+  | [], _, _, _ => rfl
+  | op :: ops, α1, α2, h => by
+    obtain ⟨ho, h'⟩ := step_eqSess α1 α2 h op
+    simp only [Spec.outs, ho, outs_eqSess ops _ _ h']
+
+/-- a statement that fails inside a session leaves a state that answers like the one a `nop` leaves -/
+theorem spec_failed_exec_eqSess (α : Spec.State) (s : String) (st : Stmt) (e : Err)
+    (h : (Spec.step α (.exec s st)).2 = .stmt (.err e)) :
+    EqSess (Spec.step α (.exec s st)).1 (Spec.step α .nop).1 := by
+  unfold Spec.step at h ⊢
+  simp only [Spec.stepCore] at h ⊢
+  cases hl : lookup s α.sessions with
+  | none => exact EqSess.refl _
+  | some a =>
+    rw [hl] at h
+    simp only [Out.stmt.injEq] at h
+    refine ⟨rfl, rfl, rfl, rfl, ?_⟩
+    intro n
+    show lookup n ((s, (Spec.stmt α.cat α.clock a 0 st).1) :: erase s α.sessions) = lookup n α.sessions
+    have ha : (Spec.stmt α.cat α.clock a 0 st).1 = a := by
+      unfold Spec.stmt
+      simp only
+      have : (planStmt none α.cat α.clock 0 a.view st).out.isErr = true := by
+        unfold Spec.stmt at h; simp only at h
+        split at h <;> (simp only at h; rw [h]; rfl)
+      simp [this]
+    rw [ha, lookup_cons_if, lookup_erase_if]
+    by_cases e' : n = s
+    · subst e'; simp [hl]
+    · simp [e']
+
+/-- the operation answered with an error: a failing statement (in a session or autocommit) or a failing batch -/
+def Out.failed : Out → Bool
+  | .stmt (.err _) => true
+  | .batchErr _ => true
+  | _ => false
+
 /-! ### stamps of a transaction that a snapshot does not see are dead weight -/
 
 /-- the store with every version created by `tid` and every delete mark of `tid` removed -/
